@@ -524,6 +524,21 @@ func (m *Machine) publish(v Value) {
 	}
 }
 
+// dirMissing: the model file system has the directories / and /tmp only; a
+// file can be created in no other directory (a name built from request data
+// may contain path separators).
+func (m *Machine) dirMissing(name string) Value {
+	if name == "" || name == "<symbolic name>" {
+		return nil
+	}
+	// every directory component must exist: "/tmp/a/../x" needs /tmp/a
+	i := strings.LastIndex(name, "/")
+	if i < 0 || name[:i] == "/tmp" || name[:i] == "" {
+		return nil
+	}
+	return m.newError("open " + name + ": no such file or directory")
+}
+
 type fileObj struct {
 	name string
 	off  int
@@ -613,11 +628,50 @@ func registerStd() {
 		}
 		b := m.strBytes(fr, args[0])
 		if sep == "" {
-			// explode into UTF-8 sequences: require ASCII bytes (assumed, stated)
+			// explode into UTF-8 sequences as utf8.DecodeRuneInString delimits
+			// them (an invalid or truncated sequence is one byte long); the
+			// shape of every sequence is a forked decision on the bytes
+			c := m.C
+			in := func(t *smt.Term, lo, hi byte) *smt.Term {
+				return c.And(c.Ule(m.b8(lo), t), c.Ule(t, m.b8(hi)))
+			}
 			out := &Cells{}
-			for _, t := range b {
-				fr.m.assumeASCII(fr, t)
-				out.E = append(out.E, m.mkStr([]*smt.Term{t}))
+			for i := 0; i < len(b); {
+				n := 1
+				t := b[i]
+				if !m.Branch(c.Ult(t, m.b8(0x80))) {
+					cont := func(k int, lo, hi byte) bool {
+						return i+k < len(b) && m.Branch(in(b[i+k], lo, hi))
+					}
+					switch {
+					case m.Branch(in(t, 0xC2, 0xDF)):
+						if cont(1, 0x80, 0xBF) {
+							n = 2
+						}
+					case m.Branch(in(t, 0xE0, 0xEF)):
+						lo, hi := byte(0x80), byte(0xBF)
+						if m.Branch(c.Eq(t, m.b8(0xE0))) {
+							lo = 0xA0
+						} else if m.Branch(c.Eq(t, m.b8(0xED))) {
+							hi = 0x9F
+						}
+						if cont(1, lo, hi) && cont(2, 0x80, 0xBF) {
+							n = 3
+						}
+					case m.Branch(in(t, 0xF0, 0xF4)):
+						lo, hi := byte(0x80), byte(0xBF)
+						if m.Branch(c.Eq(t, m.b8(0xF0))) {
+							lo = 0x90
+						} else if m.Branch(c.Eq(t, m.b8(0xF4))) {
+							hi = 0x8F
+						}
+						if cont(1, lo, hi) && cont(2, 0x80, 0xBF) && cont(3, 0x80, 0xBF) {
+							n = 4
+						}
+					}
+				}
+				out.E = append(out.E, m.mkStr(b[i:i+n]))
+				i += n
 			}
 			return Slice{A: out, Len: len(out.E), Cap: len(out.E)}
 		}
@@ -1030,6 +1084,9 @@ func registerStd() {
 	I["os.WriteFile"] = func(m *Machine, fr *frame, args []Value) Value {
 		m.ioYield()
 		name, _ := concreteStr(args[0])
+		if e := m.dirMissing(name); e != nil {
+			return e
+		}
 		files, _ := m.env["files"].(map[string][]*smt.Term)
 		if files == nil {
 			files = map[string][]*smt.Term{}
@@ -1083,6 +1140,9 @@ func registerStd() {
 			m.env["files"] = files
 		}
 		flags := int(fl.Val)
+		if e := m.dirMissing(name); e != nil {
+			return Tuple{(*Value)(nil), e}
+		}
 		_, exists := files[name]
 		if !exists {
 			if flags&os.O_CREATE == 0 {
